@@ -40,6 +40,31 @@ type ApplyCase struct {
 	Patch      string `json:"patch"`       // applicable operations, same spelling
 	PatchTests string `json:"patch_tests"` // the same operations with passing tests inserted
 	Indent     string `json:"indent"`
+	// Ensure: every call carries EnsurePathExistsOnAdd, and some adds name parents that do not exist yet
+	Ensure bool `json:"ensure_path_exists_on_add,omitempty"`
+}
+
+// ensureAdd draws an add below an object of the current state whose last 1-3
+// reference tokens name members that (mostly) do not exist yet.
+func ensureAdd(t *rapid.T, root *ref.V) (ref.Op, bool) {
+	var objs []string
+	if root.K == ref.KObj {
+		objs = append(objs, "")
+	}
+	for _, l := range gen.Locations(root) {
+		if l.V.K == ref.KObj {
+			objs = append(objs, l.Ptr)
+		}
+	}
+	if len(objs) == 0 {
+		return ref.Op{}, false
+	}
+	p := rapid.SampledFrom(objs).Draw(t, "eobj")
+	n := gen.Uniform(t, 1, 3, "etoks")
+	for i := 0; i < n; i++ {
+		p += "/" + ref.EncodeTok(rapid.SampledFrom(htmlCfg.Keys).Draw(t, "ekey"))
+	}
+	return ref.Op{Op: "add", Path: p, Value: htmlCfg.Value(1).Draw(t, "eval")}, true
 }
 
 func drawApply(t *rapid.T) ApplyCase {
@@ -47,7 +72,8 @@ func drawApply(t *rapid.T) ApplyCase {
 	g := gen.NewOpGen(true)
 	g.Cfg = htmlCfg
 	g.NearMiss, g.TestMismatch = 0, 0
-	ro := ref.Opts{Neg: true}
+	ensure := gen.OneIn(t, 4, "ensure")
+	ro := ref.Opts{Neg: true, Ensure: ensure}
 	st := &ref.State{Root: doc.Clone()}
 	var ops, ops2 []ref.Op
 	n := gen.Uniform(t, 0, 6, "nops")
@@ -63,6 +89,11 @@ func drawApply(t *rapid.T) ApplyCase {
 			}
 		}
 		op := g.Next(t, st.Root, i)
+		if ensure && rapid.Bool().Draw(t, "eadd") {
+			if e, ok := ensureAdd(t, st.Root); ok {
+				op = e
+			}
+		}
 		trial := &ref.State{Root: st.Root.Clone()}
 		if r := ref.Step(trial, op, ro); r.Cause != ref.COK {
 			continue
@@ -79,7 +110,7 @@ func drawApply(t *rapid.T) ApplyCase {
 		}
 	}
 	ind := rapid.SampledFrom([]string{" ", "  ", "\t", " \t", "    "}).Draw(t, "indent")
-	return ApplyCase{Doc: doc.Text(false), Patch: ref.OpsText(ops, false), PatchTests: ref.OpsText(ops2, false), Indent: ind}
+	return ApplyCase{Doc: doc.Text(false), Patch: ref.OpsText(ops, false), PatchTests: ref.OpsText(ops2, false), Indent: ind, Ensure: ensure}
 }
 
 func checkOutput(name string, out []byte, want *ref.V) error {
@@ -133,7 +164,14 @@ func checkApply(c ApplyCase) ev.Verdict {
 			return ev.Excluded("patch_tests is not patch plus test operations")
 		}
 	}
-	ro := ref.Opts{Neg: true}
+	if c.Ensure {
+		for _, op := range ops2 {
+			if lib.BigIndex(op.Path) {
+				return ev.Excluded("array index above 10^4 under EnsurePathExistsOnAdd (quadratic padding; outside C04's stated domain)")
+			}
+		}
+	}
+	ro := ref.Opts{Neg: true, Ensure: c.Ensure}
 	want := ref.Apply(doc, ops, ro)
 	want2 := ref.Apply(doc, ops2, ro)
 	if want.OutOfDomain() || want2.OutOfDomain() || !want.OK() || !want2.OK() {
@@ -162,7 +200,7 @@ func checkApply(c ApplyCase) ev.Verdict {
 			}
 		}
 	}
-	v := ev.Verdict{Classes: []string{fmt.Sprintf("tests=%d", min(ntests, 4))}}
+	v := ev.Verdict{Classes: []string{fmt.Sprintf("tests=%d", min(ntests, 4)), fmt.Sprintf("ensure=%v", c.Ensure)}}
 	if nameHit && valHit {
 		v.Classes = append(v.Classes, "five-in-name-and-value")
 	}
@@ -173,7 +211,7 @@ func checkApply(c ApplyCase) ev.Verdict {
 
 	outs := map[bool][]byte{}
 	for _, esc := range []bool{true, false} {
-		o := lib.Options{Neg: true, Esc: esc}
+		o := lib.Options{Neg: true, Esc: esc, Ensure: c.Ensure}
 		r := lib.Apply(doc.Text(esc), ref.OpsText(ops, esc), o)
 		if r.Panic != nil {
 			return ev.Verdict{Err: r.Panic}
@@ -214,7 +252,7 @@ func checkApply(c ApplyCase) ev.Verdict {
 		}
 		rd, rp := rawify(doc.Text(true)), rawify(ref.OpsText(ops, false))
 		if rd != doc.Text(true) || rp != ref.OpsText(ops, true) {
-			r := lib.Apply(rd, rp, lib.Options{Neg: true, Esc: true})
+			r := lib.Apply(rd, rp, lib.Options{Neg: true, Esc: true, Ensure: c.Ensure})
 			if r.Panic != nil {
 				return ev.Verdict{Err: r.Panic}
 			}
@@ -248,7 +286,7 @@ func checkApply(c ApplyCase) ev.Verdict {
 	// (5) ApplyIndent = Apply re-indented, under either EscapeHTML setting (ApplyIndent itself uses the
 	// defaults, i.e. on; ApplyIndentWithOptions must relate to ApplyWithOptions in the same way)
 	for _, esc := range []bool{true, false} {
-		ri := lib.Apply(doc.Text(esc), ref.OpsText(ops, esc), lib.Options{Neg: true, Esc: esc, Indent: c.Indent})
+		ri := lib.Apply(doc.Text(esc), ref.OpsText(ops, esc), lib.Options{Neg: true, Esc: esc, Indent: c.Indent, Ensure: c.Ensure})
 		if ri.Panic != nil {
 			return ev.Verdict{Err: ri.Panic}
 		}
@@ -269,7 +307,7 @@ func checkApply(c ApplyCase) ev.Verdict {
 			// insignificant whitespace around and inside the input document is none of the output's business
 			padded := " \n" + strings.ReplaceAll(doc.Text(esc), ",", ",\n ") + "\r\n\n"
 			if d2, err := ref.Parse([]byte(padded)); err == nil && ref.EqualOrdered(d2, doc) {
-				rp := lib.Apply(padded, ref.OpsText(ops, esc), lib.Options{Neg: true, Esc: esc, Indent: c.Indent})
+				rp := lib.Apply(padded, ref.OpsText(ops, esc), lib.Options{Neg: true, Esc: esc, Indent: c.Indent, Ensure: c.Ensure})
 				if rp.Panic != nil {
 					return ev.Verdict{Err: rp.Panic}
 				}
@@ -279,7 +317,7 @@ func checkApply(c ApplyCase) ev.Verdict {
 				}
 			}
 		}
-		if esc {
+		if esc && !c.Ensure {
 			// the default-options entry point must agree with the explicit one
 			var out []byte
 			var err error
@@ -304,7 +342,7 @@ func checkApply(c ApplyCase) ev.Verdict {
 
 var applyUnit = ev.Unit[ApplyCase]{
 	Name: "apply-escaping",
-	Rule: "documents and patches in the encoder's own spelling whose names and strings hold <, >, &, U+2028/9, quotes, backslashes, control and non-BMP characters x 0-6 applicable operations x the same patch with passing test operations inserted (any location incl. the root) x indent of spaces/tabs; oracle: strict RFC 8259 recogniser + UTF-8 + value = reference result for both EscapeHTML settings; on => none of the five characters unescaped; off => no \\u003c/\\u003e/\\u0026 escape in the output; both outputs EqualOrdered; ApplyIndent / ApplyIndentWithOptions = encoding/json.Indent and an independent re-indenter of Apply's / ApplyWithOptions' bytes under both settings; passing tests leave the bytes identical (both settings); non-trivial = the result has one of the five characters in a member name and in a string value",
+	Rule: "documents and patches in the encoder's own spelling whose names and strings hold <, >, &, U+2028/9, quotes, backslashes, control and non-BMP characters x 0-6 applicable operations x the same patch with passing test operations inserted (any location incl. the root) x indent of spaces/tabs x (1 case in 4) EnsurePathExistsOnAdd with adds below 1-3 missing members; oracle: strict RFC 8259 recogniser + UTF-8 + value = reference result for both EscapeHTML settings; on => none of the five characters unescaped; off => no \\u003c/\\u003e/\\u0026 escape in the output; both outputs EqualOrdered; ApplyIndent / ApplyIndentWithOptions = encoding/json.Indent and an independent re-indenter of Apply's / ApplyWithOptions' bytes under both settings; passing tests leave the bytes identical (both settings); non-trivial = the result has one of the five characters in a member name and in a string value",
 	Draw: drawApply, Check: checkApply,
 }
 
